@@ -39,9 +39,9 @@ META = dict(
     assumptions=[
         "reals instead of floats; sqrt of a symbolic argument is an uninterpreted function with the sound axioms s >= 0, s*s = x",
         "0 <= t (<= total steps for the detector condition, whose window arithmetic the loop never evaluates beyond that)",
-        "threshold > 0 (energy) / >= 0 (detector), min_steps >= 0, and for the detector condition min_steps >= (prev_periods+1)*spp as its _validate demands",
+        "threshold > 0, min_steps >= 0, and for the detector condition min_steps >= (prev_periods+1)*spp as its _validate demands",
         "min_steps <= max_steps (otherwise the two documented promises contradict each other)",
-        "detector convergence value (continue <=> spectral distance >= threshold) only for samples-per-period 2 and 4, where the DFT twiddles are exact; the distance oracle is compared in squared form",
+        "detector convergence value (continue <=> spectral distance >= threshold) only for samples-per-period 2 (DFT twiddles exact, all bins real; with spp = 4 the nested sqrt terms leave z3 'unknown'); the distance oracle is compared in squared form",
         "DetectorConvergenceCondition is traced with an int64 time step: under jax_enable_x64 its dynamic_slice call rejects the int32 step the real loop carries (TypeError), so its end-to-end run through run_fdtd is not exercised here",
         "loop layer: the stop predicate is an arbitrary function of the time step only (a symbolic table); gradient_config=None as run_fdtd requires for custom conditions",
     ],
@@ -177,9 +177,22 @@ def _energy(c, case):
     en, _ = jx.call(energy, E, H)
     c.interp_s += time.time() - t0
     cont, en = _zbool(out), en.reshape(-1)[0]
+    # the total energy enters the predicate only as one term: abstract it by a single non-negative Real (DESIGN C07) when
+    # the predicate's energy term is syntactically the oracle helper's term; otherwise the field-level formula is kept
+    en_var = z3.Real("total_energy")
+    cont_abs = z3.substitute(cont, (en, en_var))
+    fieldvars = set(jx.variables_of([E, H]))
+    abstracted = sc.isz(en) and not (set(jx.variables_of([jx.obj0(cont_abs)])) & fieldvars)
+    if abstracted:
+        cont, en_t = cont_abs, en_var
+    else:
+        en_t = en
+        c.notes.append("energy term not abstracted (predicate's energy term differs syntactically from compute_energy's)")
     mn_eff = mn if mn_given else z3.IntVal(dflt_min)
     mx_eff = mx if mx_given else z3.IntVal(T)
     assume = [t >= 0, t <= 2**31 - 1, thr > 0, mn_eff >= 0, mn_eff <= mx_eff, mx_eff <= 2**31 - 1] + [cnd for (_, cnd, _) in it.side]
+    if abstracted:
+        assume.append(en_var >= 0)
 
     # translator validation on one concrete input
     rng = np.random.default_rng(c.seed + 7)
@@ -197,6 +210,11 @@ def _energy(c, case):
         mnv = model_value(m, mn) if mn_given else None
         mxv = model_value(m, mx) if mx_given else None
         cE, cH = model_array(m, E).astype(np.float64), model_array(m, H).astype(np.float64)
+        if abstracted:
+            # realise the abstract energy value by a single non-zero field entry: 0.5 * x^2 / inv_eps = e
+            e = model_value(m, en_var)
+            cE, cH = np.zeros(fsh), np.zeros(fsh)
+            cE.reshape(-1)[0] = np.sqrt(2.0 * e * np.broadcast_to(ie, fsh).reshape(-1)[0])
         cd = EnergyThresholdCondition(threshold=th, min_steps=mnv, max_steps=mxv).setup(state0, cfg, oc)
         got = bool(cd((jnp.asarray(tt, dtype=jnp.int32), arr.aset("fields->E", jnp.asarray(cE)).aset("fields->H", jnp.asarray(cH))), cfg, oc))
         e_or = float(np.sum(0.5 * cE**2 / np.broadcast_to(ie, cE.shape) + 0.5 * cH**2 / np.broadcast_to(im, cH.shape)))  # documented energy, written independently
@@ -214,7 +232,7 @@ def _energy(c, case):
     tag = f"min_{case['mn']}-max_{case['mx']}"
     c.prove("t >= max_steps => stop", z3.Implies(t >= mx_eff, z3.Not(cont)), assume, replay, key=f"energy:max_steps:{tag}")
     c.prove("t < min_steps (and < max_steps) => continue", z3.Implies(z3.And(t < mn_eff, t < mx_eff), cont), assume, replay, key=f"energy:min_steps:{tag}")
-    c.prove("min_steps <= t < max_steps => (continue <=> energy >= threshold)", z3.Implies(z3.And(t >= mn_eff, t < mx_eff), cont == z3.Not(en < thr)), assume, replay, key=f"energy:threshold:{tag}")
+    c.prove("min_steps <= t < max_steps => (continue <=> energy >= threshold)", z3.Implies(z3.And(t >= mn_eff, t < mx_eff), cont == z3.Not(en_t < thr)), assume, replay, key=f"energy:threshold:{tag}")
     c.witness("twin: continues between min and max", z3.And(t >= mn_eff, t < mx_eff, cont), assume)
     c.witness("twin: stops between min and max (energy below threshold)", z3.And(t >= mn_eff, t < mx_eff, z3.Not(cont)), assume)
 
@@ -303,7 +321,7 @@ def _detector(c, case):
     cont = _zbool(out)
     mn_eff = mn if mn_given else z3.IntVal(need)
     mx_eff = mx if mx_given else z3.IntVal(T)
-    assume = [t >= 0, t <= T, thr >= 0, mn_eff >= need, mn_eff <= mx_eff, mx_eff <= 2**31 - 1]
+    assume = [t >= 0, t <= T, thr > 0, mn_eff >= need, mn_eff <= mx_eff, mx_eff <= 2**31 - 1]
     assume += [a for a in sc.UF.axioms()]
 
     rng = np.random.default_rng(c.seed + 11)
@@ -342,20 +360,26 @@ def _detector(c, case):
                                  spectral_distance=d, continues=got, documented=want, readings=cR[:, 0])
 
     tag = f"min_{case['mn']}-max_{case['mx']}"
-    c.prove("t >= max_steps => stop", z3.Implies(t >= mx_eff, z3.Not(cont)), assume, replay,
-            key=f"detector:max_steps-{'given-but-ignored' if mx_given else 'default'}:{tag}")
+    kmax = f"detector:max_steps-{'given-but-ignored' if mx_given else 'default'}:{tag}"
+    # guided witness search first (a sub-domain: fixed non-periodic trace, threshold 1e-3): finding a non-converged trace
+    # under the sqrt axioms can exhaust z3 on the full domain; an unsat answer here is just an obligation on the sub-domain
+    guide = [thr == Fraction(1, 1000)] + [R[i, 0] == Fraction((i * i) % 5 + i % 3, 4) for i in range(T)]
+    ok = c.prove("t >= max_steps => stop (fixed non-periodic trace)", z3.Implies(t >= mx_eff, z3.Not(cont)), assume + guide, replay, key=kmax)
+    if ok:
+        c.prove("t >= max_steps => stop", z3.Implies(t >= mx_eff, z3.Not(cont)), assume, replay, key=kmax)
+    c.prove("t >= total steps (>= min_steps) => stop", z3.Implies(z3.And(t >= T, mn_eff <= T), z3.Not(cont)), assume, replay, key=f"detector:total-steps:{tag}")
     c.prove("t < min_steps => continue", z3.Implies(t < mn_eff, cont), assume, replay, key=f"detector:min_steps:{tag}")
     c.witness("twin: continues between min and max", z3.And(t >= mn_eff, t < mx_eff, cont), assume)
     c.witness("twin: stops between min and max (converged)", z3.And(t >= mn_eff, t < mx_eff, z3.Not(cont), thr > 0), assume)
-    if spp in (2, 4):
-        # value of the convergence test, per query time (t substituted into the one symbolic-time interpretation)
+    if spp == 2:
+        # value of the convergence test (spp = 2: every rfft bin is real, the distance has no inner sqrt; spp = 4 was tried: z3 'unknown'), per query time (t substituted into the one symbolic-time interpretation)
         Rf = R[:, 0]
-        for tt in range(need, T + 1):
+        for tt in range(need, T):
             ct = z3.simplify(z3.substitute(cont, (t, z3.IntVal(tt))))
             d2 = _dist2_oracle([Rf[i] for i in range(tt - (P + 1) * spp, tt - spp)], [Rf[i] for i in range(tt - spp, tt)], spp, P)
             conv = sc.lt(d2, sc.mul(thr, thr))
             ax = [z3.substitute(a, (t, z3.IntVal(tt))) for a in sc.UF.axioms()]  # the sqrt argument mentions t
-            a2 = [thr >= 0, mn_eff >= need, mn_eff <= mx_eff, mn_eff <= tt, mx_eff > tt] + ax
+            a2 = [thr > 0, mn_eff >= need, mn_eff <= mx_eff, mn_eff <= tt, mx_eff > tt, mx_eff <= 2**31 - 1] + ax
             c.prove(f"t={tt}: min_steps <= t < max_steps => (continue <=> spectral distance >= threshold)", ct == sc.not_(conv), a2,
                     lambda m, tt=tt: replay(_with(m, t, tt)), key=f"detector:convergence-value:{tag}")
 
